@@ -10,10 +10,10 @@
    behaviour (Model.v): [Head] (= [Repaired]) is /repo HEAD, all five fixes committed (8396862,
    82065c3, b0a3819, 466d014, e4bb362); [BeforeRaceFixes] is /repo before the last two;
    [Defective] is /repo before any of them.
-   Open findings (KNOWN_FINDINGS.txt): stale heartbeats.  HEAD handles a heartbeat that is older than one it
-   has already handled (fix patch proposed) and one built before its own peer-loss detection (specification
-   only).  Stale.v says when a delivery is stale; [srun] with [mkSfix true true] is the filtered behaviour,
-   [mkSfix false false] is HEAD.
+   Stale heartbeats (Stale.v says when a delivery is stale): a heartbeat older than one already handled is
+   ignored since f8a6845 ([fix_so]); HEAD is [srun] with [mkSfix true false].  One finding is open
+   (KNOWN_FINDINGS.txt): HEAD still handles a heartbeat built before its own peer-loss detection
+   ([fix_sl]: specification only, needs a common clock or an epoch handshake).
    A theorem with a hypothesis [fix_xx v = true] needs that fix (so it holds for HEAD); the matching
    [_refuted] example is the historical witness: the same statement fails for the original behaviour.
    Theorems without such a hypothesis hold for every variant.
@@ -253,7 +253,7 @@ Example C10_effective_priority_refuted :
 Proof. vm_compute. repeat split; intros; discriminate. Qed.
 Print Assumptions C10_effective_priority_refuted.
 
-(* ---- stale heartbeats (open findings stale-heartbeat-built-before-peer-loss / -older-than-handled) ---- *)
+(* ---- stale heartbeats (open finding stale-heartbeat-built-before-peer-loss; -older-than-handled fixed in f8a6845) ---- *)
 (* what the staleness filter lets through to a handler was built after the receiver's last peer-loss
    detection (fix_sl) and is not older than anything handled since (fix_so) *)
 Theorem C10_stale_filter_sound : forall f t p e w i,
@@ -264,21 +264,22 @@ Theorem C10_stale_filter_sound : forall f t p e w i,
 Proof. exact sdecide_sound. Qed.
 Print Assumptions C10_stale_filter_sound.
 
-(* HEAD, no filter.  A (priority 200) is STANDBY after an operator switchover, B (100) is ACTIVE and has a
+(* HEAD ([mkSfix true false]).  A (priority 200) is STANDBY after an operator switchover, B (100) is ACTIVE and has a
    heartbeat in flight.  A loses its peer (STANDBY_ALONE); the heartbeat built BEFORE the loss arrives afterwards:
    A re-elects, wins and is ACTIVE although nothing says the peer is back.  With the filter A stays STANDBY_ALONE. *)
 Example C10_stale_before_loss_refuted :
   let cs := (mkCfg [49%N] 200 false 0 0, mkCfg [50%N] 100 false 0 0) in
   let es := [EStart A; EStart B; ESend A; EDeliver B 0; EDeliver A 0; ESwLocal A false; ESwRemote B;
              ESend B; EPeerLost A; EDeliver A 0] in
-  n_st (p_a (snd (srun Head (mkSfix false false) cs (sinit, init_pair cs) es))) = Active /\
+  n_st (p_a (snd (srun Head (mkSfix true false) cs (sinit, init_pair cs) es))) = Active /\
   n_st (p_a (snd (srun Head (mkSfix true true) cs (sinit, init_pair cs) es))) = StandbyAlone /\
   snd (srun Head (mkSfix false false) cs (sinit, init_pair cs) es) = run Head cs (init_pair cs) es.
 Proof. vm_compute. repeat split. Qed.
 Print Assumptions C10_stale_before_loss_refuted.
 
-(* HEAD, no filter.  B's STANDBY snapshot built before the switchover is delivered after the newer ACTIVE one:
-   A (STANDBY, wins) applies the dual-standby rule to the outdated snapshot and undoes the switchover. *)
+(* before f8a6845 (no filter).  B's STANDBY snapshot built before the switchover is delivered after the newer ACTIVE one:
+   A (STANDBY, wins) applies the dual-standby rule to the outdated snapshot and undoes the switchover.
+   HEAD ([mkSfix true false]) ignores it. *)
 Example C10_stale_reordered_refuted :
   let cs := (mkCfg [49%N] 200 false 0 0, mkCfg [50%N] 100 false 0 0) in
   let es := [EStart A; EStart B; ESend A; EDeliver B 0; EDeliver A 0; ESend B; ESwLocal A false; ESwRemote B;
